@@ -490,6 +490,7 @@ type c11cell struct {
 	Action  string `json:"action"`
 	By      int    `json:"by"`
 	New     int    `json:"new"`
+	Odd     bool   `json:"odd_accounts,omitempty"` // accounts X, X||Y1, X||Y2 (sim.OddAccounts)
 }
 
 func c11check(cell c11cell, c *chain.Chain) *Viol {
@@ -539,9 +540,18 @@ func c11check(cell c11cell, c *chain.Chain) *Viol {
 	return nil
 }
 
-func RunC11Closure(t *testing.T) {
+func RunC11Closure(t *testing.T) { runC11Closure(t, false) }
+
+// RunC11ClosureOdd: the closure over three accounts whose addresses (20, 32 and 32 bytes) agree in their first 20.
+func RunC11ClosureOdd(t *testing.T) { runC11Closure(t, true) }
+
+func runC11Closure(t *testing.T, odd bool) {
 	st := newStats("C11")
 	st.ID = "C11-closure"
+	if odd {
+		st.ID = "C11-closure-odd"
+		sim.OddAccounts = true
+	}
 	defer st.Write()
 	actions := []string{"UpdateOwner", "AcceptOwner", "UpdateAttesterManager", "UpdatePauser", "UpdateTokenController"}
 	states, trans := 0, 0
@@ -559,7 +569,7 @@ func RunC11Closure(t *testing.T) {
 						if act == "AcceptOwner" && nw > 0 {
 							continue
 						}
-						cell := c11cell{roles, pending, act, by, nw}
+						cell := c11cell{roles, pending, act, by, nw, odd}
 						if v := c11check(cell, c); v != nil {
 							saveFail("C11", "c11-closure", cell, v)
 							t.Fatalf("VIOLATION %s", v)
@@ -580,6 +590,7 @@ func init() {
 	replayers["c11-closure"] = func(raw []byte) *Viol {
 		var cell c11cell
 		mustJSON(raw, &cell)
+		sim.OddAccounts = cell.Odd
 		c, err := buildEnumChain(cell.Roles, cell.Pending)
 		if err != nil {
 			return nil
